@@ -390,6 +390,7 @@ class Node:
                 f"rejecting a new connection attempt from {conn.node_name}, "
                 f"because the node is shutting down")
             peer_socket.close()
+            conn.close(signal_node=False)
             return None
 
         with self._busy_lock:
@@ -399,6 +400,7 @@ class Node:
                     f"rejecting a new connection attempt from "
                     f"{conn.node_name}, as the peer is already connected")
                 peer_socket.close()
+                conn.close(signal_node=False)
                 return None
 
             conn.ident = self._generate_connection_id()
@@ -539,7 +541,7 @@ class Node:
                                      peer.port))
             except socket.error as e:
                 if e.args[0] != errno.EINPROGRESS:
-                    self.remove_peer_connection(
+                    self.close_connection_socket(
                         conn, DISCONNECT_REASON_SOCKET_FAIL)
                     return
                 self.logger.warning(f"{conn} socket not yet ready, waiting")
@@ -566,7 +568,7 @@ class Node:
                 peer_socket.connectx(connect_addr)
             except socket.error as e:
                 if e.args[0] != errno.EINPROGRESS:
-                    self.remove_peer_connection(
+                    self.close_connection_socket(
                         conn, DISCONNECT_REASON_SOCKET_FAIL)
                     return
                 self.logger.warning(f"{conn} socket not yet ready, waiting")
